@@ -1989,3 +1989,18 @@ mod tests {
     assert!(reader.matched_writer(writer_guid).is_none());
   }
 }
+
+// Verification hooks (C02): read-only views of one writer proxy and its fragment assembler.
+#[cfg(rustdds_verif)]
+impl Reader {
+  pub(crate) fn verif_c02_writer_proxy(&self, writer: GUID) -> Option<&RtpsWriterProxy> {
+    self.matched_writers.get(&writer)
+  }
+  pub(crate) fn verif_c02_assembly_buffers(&self, writer: GUID) -> Vec<(i64, Vec<bool>)> {
+    self
+      .fragment_assemblers
+      .get(&writer)
+      .map(|fa| fa.verif_c02_buffers())
+      .unwrap_or_default()
+  }
+}
